@@ -180,7 +180,8 @@ pub fn gen_seq(seed: u64, ncases: u64, maxlen: u64, zero_ok: bool, rebuilds: boo
     for case in 0..ncases {
         let mut r = r0.fork();
         // level prices: small ones, 0 (legal: every value is then 0) and a large one
-        let price = *r.pick(&[100u64, 1, 7, 1000, 100, 1000, 0, 1 << 32]);
+        // … and two odd prices whose products with small quantities pass 2^53 (exact 64-bit arithmetic expected)
+        let price = *r.pick(&[100u64, 1, 7, 1000, 100, 1000, 0, 1 << 32, 3_002_399_751_580_331, 95_000_000_001]);
         let npool = r.range(3, 7);
         let len = 1 + r.below(maxlen);
         let big = r.chance(1, 25);
@@ -197,7 +198,8 @@ pub fn gen_seq(seed: u64, ncases: u64, maxlen: u64, zero_ok: bool, rebuilds: boo
         if r.chance(1, 8) {
             // a generator restored from its serialized form, counter at a boundary
             // … or built by the constructor (counter 0); over the standard, the nil, the all-ones or a random namespace
-            let c = *r.pick(&[(1u64 << 32) - 2, (1u64 << 53) - 1, (1u64 << 63) - 2, 1u64 << 16, 999_999, 0, 0]);
+            // counters just below powers of two and of ten (decimal rendering, truncation), and 0 (constructor route)
+            let c = *r.pick(&[(1u64 << 32) - 2, (1u64 << 53) - 1, (1u64 << 63) - 2, 1u64 << 16, 999_999, 999_999_998, 9_999_999_999, 12_000_000_001, 999_999_999_999_999_998, 9_999_999_999_999_999_998, 0, 0]);
             let ns = match r.below(4) { 0 => "std".to_string(), 1 => "nil".to_string(), 2 => "max".to_string(), _ => format!("{:x}", ((r.next() as u128) << 64) | r.next() as u128) };
             out.push(format!("newgen {c} {ns}"));
         }
